@@ -78,22 +78,10 @@ pub async fn handle<W: AsyncWrite + Unpin>(
                 }
                 drop(schema_registry);
 
-                // Get existing permissions
-                let existing_perms = auth_manager
-                    .get_permissions(user_id)
-                    .await
-                    .ok()
-                    .and_then(|perms| perms.get(event_type).cloned())
-                    .unwrap_or_else(PermissionSet::none);
-
-                // Merge: grant adds, doesn't remove
-                let merged_perms = PermissionSet {
-                    read: existing_perms.read || perm_set.read,
-                    write: existing_perms.write || perm_set.write,
-                };
-
+                // Merge: grant adds, doesn't remove. The merge happens where the record is
+                // locked, a concurrent GRANT / REVOKE of the other bit is not overwritten
                 match auth_manager
-                    .grant_permission(user_id, event_type, merged_perms)
+                    .update_permission(user_id, event_type, perm_set.clone(), PermissionSet::none())
                     .await
                 {
                     Ok(_) => {
@@ -142,25 +130,16 @@ pub async fn handle<W: AsyncWrite + Unpin>(
 
             // Revoke permissions for each event type
             for event_type in event_types {
-                // Get existing permissions
-                let existing_perms = auth_manager
-                    .get_permissions(user_id)
-                    .await
-                    .ok()
-                    .and_then(|perms| perms.get(event_type).cloned())
-                    .unwrap_or_else(PermissionSet::none);
-
-                // Calculate new permissions after revocation
-                let new_perms = PermissionSet {
-                    read: existing_perms.read && !revoke_read,
-                    write: existing_perms.write && !revoke_write,
-                };
-
-                // Update permissions
-                // If both are false, create explicit denial PermissionSet to override role
-                // Otherwise, update with reduced permissions
+                // Clear the revoked bits where the record is locked (the other bit keeps the
+                // value it has then). If both end up false the entry stays as an explicit
+                // denial PermissionSet that overrides the role
                 let result = auth_manager
-                    .grant_permission(user_id, event_type, new_perms)
+                    .update_permission(
+                        user_id,
+                        event_type,
+                        PermissionSet::none(),
+                        PermissionSet::new(revoke_read, revoke_write),
+                    )
                     .await;
 
                 match result {
